@@ -14,6 +14,8 @@ def dec : List Char → List Char
   | '\\' :: 't' :: r => '\t' :: dec r
   | '\\' :: 'g' :: r => '>' :: dec r
   | '\\' :: 's' :: r => ' ' :: dec r
+  | '\\' :: 'w' :: r => '~' :: dec r
+  | '\\' :: 'p' :: r => '|' :: dec r
   | '\\' :: '\\' :: r => '\\' :: dec r
   | '\\' :: 'u' :: r =>
     let h := r.takeWhile (· != ';')
